@@ -1077,6 +1077,37 @@ pub proof fn lemma_C03_c_yield_search_domain(s: Stmt, li: Seq<usize>)
         (s matches Stmt::Expr(x) && !((*x.value) is Yield) && !((*x.value) is YieldFrom)) ==> !cy_stmt(s) && fy_stmt(s, li) is None,
 {}
 
+
+/// the return annotation is unwrapped (the yielded type is recorded) exactly when a yield line is recorded
+//@tags C03
+pub proof fn lemma_C03_c_unwrapped_iff_yield_line(a: Box<Expr>, body: Seq<Stmt>, content: Seq<char>, li: Seq<usize>)
+    ensures
+        spec_return_type(None, body, content) is None,
+        spec_return_type(Some(a), body, content) ==
+            Some(if fy_from(body, 0, li) is Some { spec_yielded_type(*a, content) } else { expr_str(*a, content) }),
+{
+    lemma_C03_c_yield_agree(body, li);
+}
+/// usefixtures: only CALLS of the mark carry names (a bare `pytest.mark.usefixtures` has none); in a pytestmark
+/// value everything that is not such a call, a list or a tuple contributes nothing
+//@tags C03
+pub proof fn lemma_C03_d_usefixtures_forms(e: &Expr)
+    ensures
+        !(e is Call) ==> spec_usefixtures(e).len() == 0,
+        !(e is Call) && !(e is List) && !(e is Tuple) ==> spec_usefixtures_from_expr(e).len() == 0,
+        (e matches Expr::Call(c) && !spec_is_mark(&*c.func, "usefixtures"@)) ==> spec_usefixtures_from_expr(e).len() == 0,
+        (e matches Expr::Call(c) && !spec_is_mark(&*c.func, "parametrize"@)) ==> spec_parametrize_indirect(e).len() == 0,
+{}
+/// module-level names: a fixture function binds no name (it is a fixture, not a candidate for "imported name"
+/// resolution); attribute / subscript targets bind none
+//@tags C03
+pub proof fn lemma_C03_e_module_level_names(s: Stmt, e: Expr)
+    ensures
+        (s matches Stmt::FunctionDef(f) && has_fixture_decorator(f.decorator_list@)) ==> module_level_names(s) =~= Set::empty(),
+        (s matches Stmt::FunctionDef(f) && !has_fixture_decorator(f.decorator_list@)) ==> module_level_names(s) =~= Set::empty().insert(idv(&f.name)),
+        (e is Attribute || e is Subscript || e is Starred) ==> target_names(e) =~= Set::<Seq<char>>::empty(),
+{}
+
 // ---- vacuity guards: each of these must FAIL ---------------------------------------------------------------
 /// `pytest.mark.fixture` is a fixture decorator
 proof fn canary_mark_fixture_accepted(e: &Expr)
